@@ -27,6 +27,27 @@ pub struct Obs {
     pub stderr: Vec<u8>,
     pub files: Vec<(String, Vec<u8>)>,
     pub timed_out: bool,
+    /// Injected output-write faults that fired in this run (from the interposer's own log).
+    pub out_faults: u64,
+}
+
+pub static OUT_FAULT_RUNS: AtomicUsize = AtomicUsize::new(0);
+pub static OUT_FAULTS_FIRED: AtomicUsize = AtomicUsize::new(0);
+pub static OUT_FAULT_FAILED_CLEANLY: AtomicUsize = AtomicUsize::new(0);
+
+/// `compare`, except that a run in which an injected write fault fired may fail (but not succeed with other output).
+pub fn judge(base: &Obs, x: &Obs, env: &Env) -> Option<Diff> {
+    if let (Some((k, e)), true) = (env.out_fail, x.out_faults > 0) {
+        if x.code != Some(0) && !x.timed_out {
+            OUT_FAULT_FAILED_CLEANLY.fetch_add(1, Ordering::Relaxed);
+            return None;
+        }
+        return compare(base, x).map(|mut d| {
+            d.what = format!("{} (write #{k} to an output file failed with errno {e}, yet anthem exited successfully)", d.what);
+            d
+        });
+    }
+    compare(base, x)
 }
 
 fn scrub(bytes: Vec<u8>, out_dir: &Path) -> Vec<u8> {
@@ -83,12 +104,30 @@ pub fn observe(bins: &Binaries, cmd: &Cmd, in_dir: &Path, out_dir: &Path, env: &
         }
         CRASHES.fetch_add(1, Ordering::Relaxed);
     }
-    let po: ProcOut = match e2::run_anthem(bins, &args, in_dir, stdin_data.as_deref(), env, &[], TIMEOUT_S) {
+    let mut extra = vec![];
+    let iolog = PathBuf::from(format!("{}.iolog", out_dir.display()));
+    if env.out_fail.is_some() {
+        OUT_FAULT_RUNS.fetch_add(1, Ordering::Relaxed);
+        extra.push(("VERIF_ENV_LOG".to_string(), iolog.to_string_lossy().into_owned()));
+    }
+    let po: ProcOut = match e2::run_anthem(bins, &args, in_dir, stdin_data.as_deref(), env, &extra, TIMEOUT_S) {
         Ok(p) => p,
         Err(e) => harness_error(&format!("cannot run {}: {e}", bins.anthem.display())),
     };
+    let mut out_faults = 0;
+    if env.out_fail.is_some() {
+        if let Ok(text) = fs::read_to_string(&iolog) {
+            for kv in text.split_whitespace() {
+                if let Some(v) = kv.strip_prefix("filewritefaults=") {
+                    out_faults += v.parse::<u64>().unwrap_or(0);
+                }
+            }
+        }
+        let _ = fs::remove_file(&iolog);
+        OUT_FAULTS_FIRED.fetch_add(out_faults as usize, Ordering::Relaxed);
+    }
     let files = if cmd.uses_out { crate::exec::read_dir_files(out_dir) } else { vec![] };
-    Obs { code: po.code, signal: po.signal, stdout: scrub(po.stdout, out_dir), stderr: scrub(po.stderr, out_dir), files, timed_out: po.timed_out }
+    Obs { code: po.code, signal: po.signal, stdout: scrub(po.stdout, out_dir), stderr: scrub(po.stderr, out_dir), files, timed_out: po.timed_out, out_faults }
 }
 
 #[derive(Clone, Debug, Serialize, Deserialize)]
@@ -170,7 +209,7 @@ pub fn differs(bins: &Binaries, cmd: &Cmd, a: &Env, b: &Env, scratch: &Mutex<Scr
         dirty(&ob, &xa.files);
     }
     let xb = observe(bins, cmd, &in_dir, &ob, b);
-    let d = compare(&xa, &xb);
+    let d = judge(&xa, &xb, b);
     for d in [&in_dir, &oa, &ob] {
         let _ = fs::remove_dir_all(d);
     }
@@ -375,6 +414,7 @@ fn count_dims(t: &mut Tally, e: &Env) {
     b("inherited_stdin_carries_a_copy_of_the_input", e.stdin_noise);
     b("stdin_producer_pauses_half_way", e.stdin_pause_ms.is_some());
     b("short_reads_on_input_files", e.read_max.is_some());
+    b("short_writes_to_output_files", e.out_short_every.is_some());
     b("eintr_on_reads_of_input_files", e.read_eintr_every.is_some());
     b("native_no_interposer", !e.preload);
 }
@@ -493,6 +533,25 @@ pub fn main(args: &Args) {
                         } else if let Some(d) = compare(&base, x) {
                             if local.violations.len() < 2 {
                                 local.violations.push(Replay { property: "C18".into(), kind: "environment".into(), seed, cmd: cmd.clone(), env_a: Env::plain(), env_b: env.clone(), diff: Some(d), note: format!("environment {r} of command {ci}"), history: vec![] });
+                            }
+                        }
+                    }
+                }
+                // a full disk (or any failing write) while the problems are being saved: fail, or save what is always saved
+                if cmd.uses_out && base.code == Some(0) && !base.files.is_empty() && !base.timed_out {
+                    let mut rng = Rng::new(anthem_simrt::plan::mix2(seed ^ 0x0fa17, ci as u64));
+                    for _ in 0..2 {
+                        let mut env = Env::plain();
+                        env.preload = true;
+                        env.out_fail = Some((*rng.pick(&[1u64, 1, 2, 3, 4, 6, 10, 40, 200, 1000]), *rng.pick(&[28u32, 28, 27, 5, 122])));
+                        let o = fresh(&scratch, "out");
+                        let x = observe(&bins, cmd, &in_dir, &o, &env);
+                        let _ = fs::remove_dir_all(o);
+                        local.runs += 1;
+                        *local.env_dims.entry("output_write_fault".into()).or_insert(0) += 1;
+                        if let Some(d) = judge(&base, &x, &env) {
+                            if local.violations.len() < 2 {
+                                local.violations.push(Replay { property: "C18".into(), kind: "environment".into(), seed, cmd: cmd.clone(), env_a: Env::plain(), env_b: env.clone(), diff: Some(d), note: format!("output write fault on command {ci}"), history: vec![] });
                             }
                         }
                     }
@@ -695,6 +754,7 @@ pub fn main(args: &Args) {
             "environments_per_command": envs + 1,
             "environment_dimensions_exercised_runs": tally.env_dims,
             "interposer_calls_answered": e2::interposer_totals(),
+            "output_write_faults": {"runs_with_a_configured_fault": OUT_FAULT_RUNS.load(Ordering::Relaxed), "faults_fired": OUT_FAULTS_FIRED.load(Ordering::Relaxed), "runs_where_anthem_failed_cleanly": OUT_FAULT_FAILED_CLEANLY.load(Ordering::Relaxed), "errnos": "ENOSPC, EFBIG, EIO, EDQUOT on the k-th write() to a regular output file"},
             "crash_restart": {"earlier_run_killed_before_the_observed_run": CRASHES.load(Ordering::Relaxed), "of_which_killed_while_still_running": CRASHES_MID_RUN.load(Ordering::Relaxed)},
             "concurrent_same_command_pairs": tally.concurrent_pairs,
             "same_process_repetitions_via_hooks_on_library": tally.inproc_pairs,
